@@ -419,7 +419,8 @@ def main():
         for _ in range(n_cross if usable else 0):
             sc = rng.choice(usable)
             tid += 1
-            recs, nm, desc = gen.pair(sc, tid)
+            # a stale header may only carry what EVERY strategy that can see this pair overwrites: the raw barcode
+            recs, nm, desc = gen.pair(dict(sc, settags=['bc'] if sc['bc'] else []), tid)
             for strategy in dmx.demultiplexingStrategies:
                 obs = observe(strategy, recs, FastqRecord, NonMultiplexable, call)
                 if obs['acc'] or strategy.shortName == sc['strategy']:
